@@ -29,6 +29,7 @@ def run(chk: Check):
     chains(chk, rng)
     groups(chk, rng)
     distreg(chk, rng)
+    logging_(chk, rng)
 
 
 VW_MC = """CONSTANTS NV = 2 NN = {nn} Kind <- Kind{nn} Names = {names} Atomic = {atomic}
@@ -147,3 +148,33 @@ def distreg(chk, rng):
              "registers the smooth name before failing with a KeyError; a smooth whose explicit name clashes with a group of "
              "another predictor is wired into its predictor before add_groups raises; re-adding a predictor keeps the old "
              "smooth names taken (RegistryIsInputs is refuted by TLC for the as-coded spec)")
+
+
+LG_MC = """CONSTANTS ResetAsCoded = {ac} MaxHandlers = 3
+SPECIFICATION Spec
+INVARIANT NoDuplicationViaRoot
+PROPERTY SetupState
+"""
+
+
+def logging_(chk, rng):
+    """Logging.tla: setup_logger / reset_logger / add_file_handler and the delivery rule; reset as documented vs as coded (G7)."""
+    from vlib.core import run_tlc
+    acts = ["Setup", "Reset", "AddFile"]
+    chk.mc("MC_Logging.tla", LG_MC.format(ac="FALSE") + "PROPERTY ResetRemovesAllHandlers\nPROPERTY AfterResetOnlyRoot\n",
+           tag="logging-documented", expect_actions=acts, workers=2,
+           what="<= 3 handlers per logger, every call order: a documented reset removes all handlers; afterwards only the root sees records")
+    chk.mc("MC_Logging.tla", LG_MC.format(ac="TRUE"), tag="logging-as-coded", expect_actions=acts, workers=2,
+           what="as coded: setup state and no duplication via the root logger")
+    r = run_tlc("MC_Logging.tla", LG_MC.format(ac="TRUE") + "PROPERTY ResetRemovesAllHandlers\n", tag="growth-logging-g7", workers=1,
+                timeout=120)
+    chk.extra["G7_as_coded_counterexample"] = r.error or "none"
+    trs = [D.logging_trace(rng, 16) for _ in range(40 if chk.quick else 1000)]
+    survived = sum(1 for t in trs for e in t["ev"] if e["ev"] == "reset" and e["obs"]["handlers"]["liesel"])
+    chk.extra["G7_resets_leaving_handlers_on_real_logger"] = survived
+    chk.note("G7 (not a listed property): reset_logger is documented to remove all handlers of the liesel logger but removes "
+             "from the list it iterates over - with two or more handlers every second one survives "
+             f"(TLC: {r.error}; observed on the real logger in {survived} recorded resets); traces are validated against the as-coded spec")
+    cfg = "CONSTANTS ResetAsCoded = TRUE MaxHandlers = 99\n"
+    chk.tv("Trace_Logging.tla", trs, tag="logging", cfg_extra=cfg, keyfn=lambda r: f"logging:{r.conjunct}",
+           describe=lambda r: str(r.trace["ev"][r.line - 1])[:400])
